@@ -86,7 +86,7 @@ def build_instances(rng, tier):
         GraphicsSegmentsType, ReservedExtensionsType
     from sarpy.io.general.nitf_elements.image import ImageSegmentHeader, ImageSegmentHeader0, ImageBand, ImageBands, ImageComment, \
         ImageComments, MaskSubheader
-    from sarpy.io.general.nitf_elements.des import DataExtensionHeader, DataExtensionHeader0, XMLDESSubheader
+    from sarpy.io.general.nitf_elements.des import DataExtensionHeader, DataExtensionHeader0, XMLDESSubheader, DESUserHeader
     from sarpy.io.general.nitf_elements.text import TextSegmentHeader, TextSegmentHeader0
     from sarpy.io.general.nitf_elements.graphics import GraphicsSegmentHeader
     from sarpy.io.general.nitf_elements.res import ReservedExtensionHeader, ReservedExtensionHeader0
@@ -123,6 +123,20 @@ def build_instances(rng, tier):
         except Exception:
             pass   # a class without usable defaults (NITF 2.0 symbol header): only explicit instances are exercised
         generic(cls, n)
+    # DES subheaders whose conditional fields (DESOFLW / DESITEM, user-defined subheader) are present
+    for _ in range(n):
+        try:
+            kw = dict(DESID='TRE_OVERFLOW', DESOFLW=rng.choice(['XHD', 'IXSHD', 'SXSHD', 'TXSHD', 'UDHD', 'UDID']), DESITEM=rng.randint(0, 999),
+                      DESVER=rng.randint(1, 99))
+            out.append(('DataExtensionHeader:overflow', DataExtensionHeader(**kw)))
+            uh = DESUserHeader(data=bytes(rng.randrange(32, 127) for _ in range(rng.randint(1, 60))))
+            out.append(('DataExtensionHeader:userheader', DataExtensionHeader(DESID=rand_text(rng, 25).strip() or 'X', UserHeader=uh)))
+            out.append(('DataExtensionHeader:overflow+userheader', DataExtensionHeader(UserHeader=uh, **kw)))
+            tag = rng.choice(['TRE_OVERFLOW', 'Registered Extensions', 'Controlled Extensions'])
+            out.append(('DataExtensionHeader0:overflow', DataExtensionHeader0(DESTAG=tag, DESOFLW=rng.choice(['XHD', 'IXSHD', 'UDHD', 'UDID']),
+                                                                             DESITEM=rng.randint(0, 999))))
+        except Exception as e:
+            out.append(('DataExtensionHeader:construct', e))
     # file headers with item arrays
     for _ in range(n):
         ni, nd, nt = rng.randint(0, 4), rng.randint(0, 3), rng.randint(0, 2)
